@@ -81,21 +81,26 @@ fn gen_cfg(rng: &mut Rng, family: &str) -> Cfg {
         "burst" => (rng.range(1, 70) as usize, if rng.below(8) == 0 { rng.range(130, 200) as usize } else { rng.below(70) as usize }),
         // one or two publishers with thousands of items available at once (a single poll relays a long burst)
         "firehose" => (rng.range(1, 2) as usize, rng.range(1, 3) as usize),
+        // wide fan-out, dense traffic, (almost) every sink ready: what a router that sweeps its sinks in instalments
+        // (per-poll budgets, resumable flushes) would have to get right, at 64/128/256-ish boundaries in particular
+        "wide" => (rng.range(1, 3) as usize, match rng.below(4) { 0 => rng.range(62, 70), 1 => rng.range(126, 132), 2 => rng.range(129, 200), _ => rng.range(200, 330) } as usize),
         "c09" => (rng.below(4) as usize, rng.below(4) as usize),
         "c08" => (rng.range(1, 3) as usize, rng.range(1, 4) as usize),
         _ => (rng.range(1, 3) as usize, rng.below(5) as usize),
     };
-    let items = (0..n_pubs).map(|_| if family == "burst" { (rng.below(4) == 0) as u32 } else if family == "firehose" { rng.range(900, 2600) as u32 } else { rng.below(5) as u32 }).collect();
-    let steps = if family == "burst" { rng.range(40, 260) as usize } else { rng.range(10, 70) as usize };
+    let items = (0..n_pubs).map(|_| if family == "wide" { rng.range(2, 6) as u32 } else if family == "burst" { (rng.below(4) == 0) as u32 } else if family == "firehose" { rng.range(900, 2600) as u32 } else { rng.below(5) as u32 }).collect();
+    let steps = if family == "wide" { rng.range(6, 40) as usize } else if family == "burst" { rng.range(40, 260) as usize } else { rng.range(10, 70) as usize };
     let spurious = matches!(family, "c01" | "c08" | "c11") && rng.pct(30);
     let close_at = match family {
         "c16" => Some(rng.usize(steps)),
+        "wide" if rng.pct(75) => Some(rng.range(2, steps as u64 - 1) as usize),
         "burst" if rng.pct(50) => Some(rng.usize(steps)),
         "c09" if rng.pct(30) => Some(rng.usize(steps)),
         _ => None,
     };
+    let wide_all_ready = family == "wide" && rng.pct(80);
     let sink_profiles = (0..n_subs)
-        .map(|_| if rng.pct(35) { 0 } else { rng.range(1, 5) as u8 })
+        .map(|_| if family == "wide" { if wide_all_ready || rng.pct(97) { 0 } else { rng.range(1, 5) as u8 } } else if rng.pct(35) { 0 } else { rng.range(1, 5) as u8 })
         .collect();
     Cfg {
         n_pubs,
@@ -110,7 +115,7 @@ fn gen_cfg(rng: &mut Rng, family: &str) -> Cfg {
         hostile_frames: family == "c11",
         faults: family == "c08" || (family == "c16" && rng.pct(30)),
         sink_profiles,
-        prefill: if family == "burst" && rng.pct(60) { rng.usize(n_pubs + n_subs + 1) } else { 0 },
+        prefill: if family == "wide" { if rng.pct(80) { n_pubs + n_subs } else { n_subs } } else if family == "burst" && rng.pct(60) { rng.usize(n_pubs + n_subs + 1) } else { 0 },
         err_storm: if family == "burst" && rng.pct(40) { Some((rng.usize(steps), rng.range(1, 40) as usize)) } else { None },
         close_on_yield: if family == "firehose" && rng.pct(50) { Some(rng.range(3, 700)) } else { None },
         storm: if family == "burst" && rng.pct(70) {
